@@ -19,6 +19,23 @@ import (
 	"golang.org/x/tools/go/ssa"
 )
 
+// dirYield: with the flag set, ReadDir and DirEntry.Info (lstat) are scheduling
+// points, so that a directory scan can be overtaken by another thread's unlink.
+func regD(name string, f func(s *State, a []Value) Value) {
+	reg(name, func(s *State, th *Thread, fr *Frame, args []Value, call *ssa.Call, rk retKind) (Value, bool) {
+		if s.flags["dirYield"] != 0 && len(s.threads) > 1 {
+			if !s.schedPoint(th, waitSpec{}) {
+				return nil, false
+			}
+		}
+		v := f(s, args)
+		if s.dead {
+			return nil, false
+		}
+		return v, true
+	})
+}
+
 type kInode struct {
 	id      int
 	data    []Value
@@ -93,6 +110,7 @@ type kFileInfo struct {
 
 type kDirEntry struct {
 	name string
+	path string
 	ino  int
 	size int64
 }
@@ -270,7 +288,7 @@ func regKernel() {
 		return nilErr()
 	})
 	simple("os.MkdirAll", func(s *State, a []Value) Value { return nilErr() })
-	simple("os.ReadDir", func(s *State, a []Value) Value {
+	regD("os.ReadDir", func(s *State, a []Value) Value {
 		stubName("readdir")
 		dir := cleanPath(str(a[0]))
 		k := s.k()
@@ -292,16 +310,20 @@ func regKernel() {
 				base = n[j+1:]
 			}
 			ino := k.dir[n]
-			cells[i] = IfaceV{T: dirEntryT, V: NativeV{&kDirEntry{name: base, ino: ino, size: int64(len(k.inodes[ino].data))}}}
+			cells[i] = IfaceV{T: dirEntryT, V: NativeV{&kDirEntry{name: base, path: n, ino: ino, size: int64(len(k.inodes[ino].data))}}}
 		}
 		id := s.newObject(cells, "[]DirEntry")
 		return TupleV{SliceV{Obj: id, Len: c64(len(cells)), Cap: c64(len(cells))}, nilErr()}
 	})
 	simple("native:*main.kDirEntry.Name", func(s *State, a []Value) Value { return StrV(a[0].(NativeV).X.(*kDirEntry).name) })
-	simple("native:*main.kDirEntry.Info", func(s *State, a []Value) Value {
+	regD("native:*main.kDirEntry.Info", func(s *State, a []Value) Value {
 		d := a[0].(NativeV).X.(*kDirEntry)
 		ino := d.ino
 		size := d.size
+		// Info is an lstat of the name: it fails when the entry was removed since ReadDir
+		if cur, ok := s.k().dir[d.path]; d.path != "" && (!ok || cur != ino) {
+			return TupleV{IfaceV{}, errNotExist()}
+		}
 		if in, ok := s.k().inodes[ino]; ok {
 			size = int64(len(in.data))
 		}
